@@ -16,6 +16,7 @@ import os
 import sys
 import time
 import traceback
+from pathlib import Path
 
 from . import common
 from .common import Ctx, Result, Violation
@@ -197,8 +198,10 @@ def main(argv=None):
     ev = dict(property_id=pid, tier=args.tier, seed=args.seed, level=level, coverage=cov,
               assumptions=list(getattr(prop, "ASSUMPTIONS", [])), wall_s=round(time.time() - t0, 2),
               violations=len(new_viol))
-    edir = common.VERIF / "evidence"
-    edir.mkdir(exist_ok=True)
+    # VERIF_EVIDENCE_DIR: used only by tools/seed_check.sh so that a run against a seeded (patched) scratch copy
+    # of the repository does not overwrite the evidence of the real tree
+    edir = Path(os.environ["VERIF_EVIDENCE_DIR"]) if os.environ.get("VERIF_EVIDENCE_DIR") else common.VERIF / "evidence"
+    edir.mkdir(parents=True, exist_ok=True)
     (edir / f"{pid}.json").write_text(json.dumps(ev, indent=1, default=str))
     print(f"{pid} tier={args.tier} seed={args.seed}: theorems {a['discharged']}/{a['obligations']}, "
           f"cases {res.evaluations} ({len(res.nontrivial)} distinct non-trivial), "
